@@ -166,7 +166,7 @@ func runC20(c *Ctx) {
 			if named == nil || named.Obj().Name() != "Date32" {
 				continue
 			}
-			if len(core.FindCalls(fn, isTimeMethod("Unix"))) == 0 {
+			if !reachesInProto(fn, isTimeMethod("Unix"), 2) {
 				continue
 			}
 			n++
@@ -180,10 +180,11 @@ func runC20(c *Ctx) {
 						continue
 					}
 					if bo.Op == token.QUO {
-						if dep := core.DependsOn(bo.X, func(v ssa.Value) bool {
+						isUnix := func(v ssa.Value) bool {
 							_, ok := core.CallTo(v, isTimeMethod("Unix"))
 							return ok
-						}, false); dep {
+						}
+						if core.DependsOn(bo.X, isUnix, false) || core.DependsOnResults(bo.X, isUnix) {
 							quo = bo
 						}
 					}
@@ -739,6 +740,56 @@ func runC20(c *Ctx) {
 		c.R.Floor(rule, cfg, n, 4)
 	}()
 
+	// ---- C20.dayzone
+	rule = "C20.dayzone"
+	c.R.Rule(rule, "day-granular scalars round-trip in every process time zone: for each named integer type D of package proto whose converter To<D>(time.Time) takes the calendar day in the time's own zone (it adds the offset of Time.Zone), D.Time() does not return the bare result of time.Unix / UnixMilli / UnixMicro - those carry time.Local, so west of UTC the midnight instant falls on the previous local day and To<D>(d.Time()) == d-1; the result is pinned to a zone (UTC(), In(...), time.Date)")
+	func() {
+		n := 0
+		for _, fn := range p.Funcs() {
+			if pkgOf(fn) == nil || pkgOf(fn).Path() != core.PkgProto || fn.Signature.Recv() != nil || !strings.HasPrefix(fn.Name(), "To") || fn.Blocks == nil {
+				continue
+			}
+			sig := fn.Signature
+			if sig.Params().Len() != 1 || sig.Results().Len() != 1 || !core.IsNamed(sig.Params().At(0).Type(), "time", "Time") {
+				continue
+			}
+			d := core.NamedOf(sig.Results().At(0).Type())
+			if d == nil || d.Obj().Pkg() == nil || d.Obj().Pkg().Path() != core.PkgProto {
+				continue
+			}
+			if _, isInt := d.Underlying().(*types.Basic); !isInt {
+				continue
+			}
+			usesZone := reachesInProto(fn, func(f *types.Func) bool { return core.IsMethod(f, "time", "Time", "Zone") }, 2)
+			if !usesZone {
+				continue
+			}
+			tm := p.Method(core.PkgProto, d.Obj().Name(), "Time")
+			if tm == nil || tm.Blocks == nil {
+				continue
+			}
+			n++
+			key := d.Obj().Name() + ".Time"
+			bad := false
+			for _, b := range tm.Blocks {
+				ret, ok := b.Instrs[len(b.Instrs)-1].(*ssa.Return)
+				if !ok || len(ret.Results) != 1 {
+					continue
+				}
+				if cl, ok := ret.Results[0].(*ssa.Call); ok {
+					if f := core.CalleeFunc(cl); f != nil && f.Pkg() != nil && f.Pkg().Path() == "time" && strings.HasPrefix(f.Name(), "Unix") && cl.Call.Signature().Recv() == nil {
+						bad = true
+						c.R.Bad(rule, key, cfg, p.Pos(ret.Pos()), d.Obj().Name()+".Time() returns time."+f.Name()+"(...) in the process-local zone while "+fn.Name()+" takes the calendar day in the time's own zone: in a zone west of UTC "+fn.Name()+"(d.Time()) is the previous day")
+					}
+				}
+			}
+			if !bad {
+				c.R.Ok(rule, key, cfg, p.Pos(tm.Pos()), "the returned time is pinned to a zone; "+fn.Name()+" reads the day in that zone")
+			}
+		}
+		c.R.Floor(rule, cfg, n, 2)
+	}()
+
 	// ---- C20.family
 	rule = "C20.family"
 	c.R.Rule(rule, "no conversion between distinct temporal scalar types (Date, Date32, DateTime, DateTime64) inside the column methods: a Date32 column that goes through the 16-bit Date helper wraps every day outside 1970..2149")
@@ -860,4 +911,26 @@ func ruleIPCalls(c *Ctx, p *core.Program, rule string, fn *ssa.Function, allowed
 		}
 	}
 	c.R.Ok(rule, key, cfg, p.Pos(fn.Pos()), "only bijective accessors")
+}
+
+// reachesInProto: fn, or a proto function it calls statically (to the given depth), calls a function satisfying pred.
+func reachesInProto(fn *ssa.Function, pred func(*types.Func) bool, depth int) bool {
+	seen := map[*ssa.Function]bool{}
+	var rec func(f *ssa.Function, d int) bool
+	rec = func(f *ssa.Function, d int) bool {
+		if f == nil || seen[f] || d > depth || f.Blocks == nil {
+			return false
+		}
+		seen[f] = true
+		for _, call := range core.Calls(f) {
+			if cf := core.CalleeFunc(call); cf != nil && pred(cf) {
+				return true
+			}
+			if sf := core.StaticFn(call); sf != nil && pkgOf(sf) != nil && pkgOf(sf).Path() == core.PkgProto && rec(sf, d+1) {
+				return true
+			}
+		}
+		return false
+	}
+	return rec(fn, 0)
 }
